@@ -135,10 +135,11 @@ PROPS = {
         rule=("matrix: constructors x 14 permission sets x {remote,local} x 3-4 (quick) / 12-13 (thorough) values; rapid: random constructor, random subset of {pr,pw,ev,hd,wr}, optional prior application value, typed or arbitrary JSON value. "
               "Non-trivial: the permission under test is absent (no pr, or no pw on the remote path). Distinct by (constructor, perms, path, values)."),
         assumptions=["a characteristic whose permissions are overridden to exclude read starts without a value"],
-        essential_classes=["missing:pw/remote", "missing:pr/remote", "missing:pr/local", "all-perms/remote"],
+        essential_classes=["missing:pw/remote", "missing:pr/remote", "missing:pr/local", "all-perms/remote", "http:put/missing-pw", "http:get/missing-pr", "http:subscribe/missing-ev", "http:event/missing-ev", "http:event/delivered"],
         jobs=[
             dict(test="TestC11Matrix", kind="plain", shards={Q: 4, T: 8}),
             dict(test="TestC11Prop", kind="rapid", checks={Q: 1000, T: 40000}, shards=8),
+            dict(test="TestC11HTTP", kind="rapid", checks={Q: 40, T: 2000}, shards=8),
         ],
     ),
     "C14": dict(
@@ -261,10 +262,12 @@ PROPS = {
         rule=("rapid cases: state from {fresh, setup-after-M2, setup-after-M4, setup-completed, verify-after-M2, verified, verified+setup-after-M2} x 1..3 hostile requests from 10 generator families. "
               "Non-trivial: hostile request delivered in a non-initial protocol state. Distinct by (state, seed, requests)."),
         assumptions=["requests reach the handlers through net/http (which bounds header sizes and recovers nothing for us at handler level)"],
-        essential_classes=["state:setup-after-M4", "state:verify-after-M2", "state:verified", "kind:tlv:short-encrypted", "kind:tlv:wrong-tag", "kind:tlv:sealed-garbage", "kind:json", "kind:query", "endpoint:/pairings", "endpoint:/resource", "regress"],
+        essential_classes=["state:setup-after-M4", "state:verify-after-M2", "state:verified", "kind:tlv:short-encrypted", "kind:tlv:wrong-tag", "kind:tlv:sealed-garbage", "kind:json", "kind:query", "endpoint:/pairings", "endpoint:/resource", "regress", "wire-state:verified", "wire-state:setup-after-M4"],
         jobs=[
             dict(test="TestC13Regress", kind="plain"),
-            dict(test="TestC13Prop", kind="rapid", checks={Q: 150, T: 5000}, shards=16),
+            dict(test="TestC13Prop", kind="rapid", checks={Q: 150, T: 5000}, shards=12),
+            dict(test="TestC13Wire", kind="rapid", checks={Q: 12, T: 400}, shards=4),
+            dict(test="FuzzC13Handlers", kind="fuzz", tiers=[T], fuzztime={T: 120}),
         ],
     ),
     "C01": dict(
